@@ -20,7 +20,7 @@ DOC = {
  "C09.R3": "result table identical in all waiting bodies: Ok(Ok(v))->Success(v), Ok(Err)->SenderError, Err->Timeout (with deadline); Ok(v)->Success(v), Err->SenderError (without)",
  "C09.R4": "deadline plumbing: the duration given to the crate's timeout and the Some(duration) tested originate from the function's timeout parameter; an unbounded wait for a reply (plain rx.await) is reachable only on the None edge of that parameter (in the waiting body or where its task is created); the port's From impls store the duration unchanged",
  "C09.R5": "multi_call: index and receiver of each spawned wait come from the same enumerate item; the result vector is written only by resize_with and indexing with the index returned by that wait",
- "C09.R6": "call_and_forward: one forwarding send, not in a cycle, performed only for a Success reply: inside the closure given to CallResult::map (which maps Success only), or behind the Success edge of a match on the reply",
+ "C09.R6": "call_and_forward: one forwarding send, not in a cycle, performed only for a Success reply: inside the closure given to CallResult::map (which maps Success only), or behind the Success edge of a match on the reply -- and on every path from there (a Success reply is never dropped)",
  "C09.R8": "internal_call: the send result is checked (`sent?` or a match on it) before the reply is awaited (a refused message keeps its reply port alive, so waiting would hang); build+send happen once before the wait block",
  "C09.R9": "multi_call: each send result is tested and on the refused edge nothing is awaited or spawned before returning (the refused message keeps that callee's reply port alive)",
  "C09.R10": "exported macros, analysed where expanded (witness/derive::rpc_macros, built against /repo's macros): every call_t!/forward! arm passes its timeout as Some(duration) to the call; call!/untimed forward! pass None",
@@ -302,8 +302,11 @@ def r6(run, db):
         sends += [(ch, c) for c in ch.calls() if c.is_("ActorCell::send_message")]
     run.check(len(sends) == 1 and not sends[0][0].in_cycle(sends[0][1].site) and not any(f.in_cycle(mc.site) for mc in maps), "forward-once", "exactly one forwarding send, not in a cycle", "%d forwarding sends" % len(sends), f.where())
     for ch, c in sends:
+        UNCOND = ("forward-unconditional", "a Success reply is forwarded on every path (no status or other short-cut around the forwarding send)",
+                  "call_and_forward can drop a Success reply: a path from the received reply to the end avoids the forwarding send (e.g. a liveness pre-check of the forward target, which also refuses an Unstarted target that would have queued it): the reply is consumed from the port and forwarded zero times")
         if ch.id in map_closures:
             run.ok("forward-on-success", "the forwarding send is the body of the closure applied by CallResult::map", c.where())
+            run.check(ch.must_pass(ch.entry(), [c.site]), UNCOND[0], UNCOND[1], UNCOND[2], c.where())
             continue
         good = False
         if ch.id == f.id:
@@ -313,6 +316,7 @@ def r6(run, db):
                 if info.get("kind") == "enum" and "Success" in e and "Timeout" in e and "SenderError" in e:
                     if f.edge_dominates((site.bb, e["Success"]), c.site) and e["Success"] not in [v for k_, v in e.items() if k_ != "Success"]:
                         good = True
+                        run.check(f.must_pass(Site(e["Success"], 0), [c.site]), UNCOND[0], UNCOND[1], UNCOND[2], c.where())
         run.check(good, "forward-on-success", "the forwarding send lies behind the Success edge of a match on the reply", "a forwarding send bypasses the Success mapping", c.where())
     mp = [g for g in db.crate_fns("ractor") if g.id.endswith("CallResult::<T>::map")]
     for g in mp:
